@@ -142,6 +142,19 @@ func raceMain(a []string) {
 						record("sync", db.Sync())
 					case x < 97:
 						b := db.NewBatch(kv.DefaultBatchOptions)
+						if r.Intn(4) == 0 {
+							// a batch larger than the data-file limit in which one key is staged again and again with growing
+							// values: the mid-batch flush is triggered by a RE-put of a staged key, while the other clients
+							// queue behind the batch's lock
+							k1 := keys[r.Intn(len(keys))]
+							for i := 0; i < 6; i++ {
+								kk := k1
+								if i%2 == 1 {
+									kk = keys[r.Intn(len(keys))]
+								}
+								_ = b.Put(kk, append(append([]byte{}, kk...), patBytes(uint64(r.Intn(1000)), 3000+i*1500)...))
+							}
+						}
 						for i := 0; i < 1+r.Intn(3); i++ {
 							kk := keys[r.Intn(len(keys))]
 							if r.Intn(3) == 0 {
